@@ -585,7 +585,8 @@ func (h *Harness) agree(exp Expect, obs Observed, f *ast.Field, fd *ast.FieldDef
 }
 
 // AllQuirks lists the named deviations in the order they are tried.
-var AllQuirks = []string{QStringFromJSONNumber, QIntFromNumericString, QFloatFromNumStringVar, QIDFromJSONFloat, QInt32FromString,
+var AllQuirks = []string{QStringFromJSONNumber, QIntFromNumericString, QFloatFromNumStringVar, QIDFromJSONFloat, QInt32FromString, QInt64FromString, QUintFromString, QUint32FromString, QUint64FromString,
+	QFloatModelFromString, QFloatNonFiniteString,
 	QUnsetVarFieldIsNull, QStrictVarPosition, QPanicHugeIntLiteral, QPanicNullInNestedList}
 
 // Verdict of one case.
